@@ -196,13 +196,27 @@ def gen_cases(binname, args, seed, profile="release", timeout=3600):
 def correspond(ctx, stream, cases, nontrivial=None, spec_equal=None, model_equal=None):
     """Diff implementation vs model (correspondence) and implementation vs spec (property
     oracle) on `cases`.  Returns (model_disagreements, spec_disagreements) as lists of dicts."""
+    st = ctx.streams.setdefault(stream, {"cases": 0, "model_disagree": 0, "spec_disagree": 0,
+                                         "bad_op": 0, "impl_panic": 0, "impl_err": 0})
+    # implementation-vs-implementation oracles: `#oracle <label> \t observed \t expected`
+    oracle = [c for c in cases if c[0].startswith("#oracle ")]
+    cases = [c for c in cases if not c[0].startswith("#oracle ")]
+    osd = []
+    for req, observed, expected in oracle:
+        st["cases"] += 1
+        st["oracle_cases"] = st.get("oracle_cases", 0) + 1
+        ctx.evaluations += 1
+        if not observed.startswith("err"):
+            ctx.nontrivial.add(hashlib.blake2b(req.encode(), digest_size=8).digest())
+        if observed != (expected or ""):
+            st["spec_disagree"] += 1
+            osd.append({"stream": stream, "request": req, "impl": observed, "model": None,
+                        "spec_request": None, "spec": expected})
     reqs = [c[0] for c in cases]
     model = driver_batch(reqs)
     spec_idx = [i for i, c in enumerate(cases) if c[2]]
     spec = dict(zip(spec_idx, driver_batch([cases[i][2] for i in spec_idx])))
-    md, sd = [], []
-    st = ctx.streams.setdefault(stream, {"cases": 0, "model_disagree": 0, "spec_disagree": 0,
-                                         "bad_op": 0, "impl_panic": 0, "impl_err": 0})
+    md, sd = [], osd
     for i, (req, impl, sreq) in enumerate(cases):
         st["cases"] += 1
         ctx.evaluations += 1
